@@ -18,13 +18,16 @@ Open Scope Z_scope.
 Record cobs := mkObs { o_id : positive; o_status : status; o_ready : Z; o_qalloc : res }.
 Record evrec := mkEv {
   ev_victim : positive; ev_action : Z; ev_preemptor : positive; ev_node : option positive;
-  ev_pipnode : option positive; ev_order : list positive; ev_obs : list cobs }.
+  ev_pipnode : option positive;
+  ev_jp_count : Z; ev_jp_min : Z;     (* the job's occupied count / minMember when JobPipelined was asked; -1: not asked *)
+  ev_order : list positive; ev_obs : list cobs }.
 
 Definition dObs : dec cobs :=
   let* i := dPos in let* s := dStatus in let* r := dZ in let* q := dRes in ret (mkObs i s r q).
 Definition dEvrec : dec evrec :=
   let* v := dPos in let* a := dZ in let* p := dPos in let* n := dNodeRef in let* pn := dNodeRef in
-  let* o := dList dPos in let* ob := dList dObs in ret (mkEv v a p n pn o ob).
+  let* jc := dZ in let* jm := dZ in
+  let* o := dList dPos in let* ob := dList dObs in ret (mkEv v a p n pn jc jm o ob).
 
 Record law_in := mkLawIn { li_spec : spec; li_lims : list qlim_spec; li_evs : list evrec;
                            li_final : list (positive * status * option positive) }.
@@ -163,5 +166,17 @@ Fixpoint accepts_prefix (e : evrec) (v p : task_spec) (ts : list (list plug)) : 
 Definition respects_all (e : evrec) : bool :=
   with_pair e (fun v p => accepts_prefix e v p (sp_tiers sp)).
 Definition law_plugins_all : bool := forallb respects_all (li_evs L).
+
+(* 105: a job statement is committed only for a job that is JobPipelined (inter-job preemption and
+   reclaim; the intra-job phase commits iff the preemptor was assigned): when the gang plugin is
+   configured, JobPipelined was asked for the preemptor's job right before the commit, and at that
+   moment the job's own counters (waiting + ready + pending best-effort) reached minMember *)
+Definition gang_configured : bool :=
+  existsb (existsb (fun pl => bool_decide (p_kind pl = KGang))) (sp_tiers sp).
+Definition job_made_it (e : evrec) : bool :=
+  with_pair e (fun v p =>
+    if bool_decide (ts_job v = ts_job p) || negb gang_configured then true
+    else bool_decide (0 <= ev_jp_min e) && bool_decide (ev_jp_min e <= ev_jp_count e)).
+Definition law_job_pipelined : bool := forallb job_made_it (li_evs L).
 
 End Laws.
